@@ -1019,6 +1019,40 @@ func genCopy(r *rand.Rand, id string) *Case {
 	if len(script)+1 > 64 && c.L == 64 {
 		c.L = 256
 	}
+	// what CopyInResponse announces is what the handler asked for: the overall format and one code per column
+	fm := make([]string, ncols)
+	for i := range fm {
+		fm[i] = strconv.Itoa(format)
+	}
+	c.Extra["xg"] = strconv.Itoa(format) + ":" + strings.Join(fm, ".")
+	if r.Intn(6) == 0 {
+		// COPY started through Parse/Bind/Execute; the Bind carries result-format codes of its own, which
+		// describe DataRows, not the copy-in stream
+		var rf []uint16
+		switch r.Intn(3) {
+		case 0:
+			rf = []uint16{uint16(1 - format)}
+		case 1:
+			rf = make([]uint16, ncols)
+			for i := range rf {
+				rf[i] = uint16(r.Intn(2))
+			}
+		}
+		in = append(in, msgParse("cp", script, nil)...)
+		in = append(in, msgBind("", "cp", nil, nil, rf)...)
+		in = append(in, msgExecute("", 0)...)
+		for i := 0; i < nreads; i++ {
+			in = append(in, msgCopyData(randBytes(r, 1+r.Intn(9), false))...)
+		}
+		in = append(in, msgCopyDone()...)
+		in = append(in, msgSync()...)
+		in = append(in, msgQuery(probeQuery("END", 0))...)
+		c.In = in
+		c.Cuts = randCuts(r, len(in))
+		c.Extra["xtail"] = "Z," + xpC("END") + ",Z"
+		c.Extra["xend"] = "w"
+		return c
+	}
 	L := c.L
 	in = append(in, msgQuery(script)...)
 	xp := []string{"T" + strconv.Itoa(ncols), "G"}
@@ -1367,6 +1401,12 @@ func genBinCopy(_ *rand.Rand, id string) *Case {
 	in = append(in, msgCopyDone()...)
 	in = append(in, msgQuery(probeQuery("END", 0))...)
 	c.In = in
+	// whatever the stream was, the COPY cycle is closed with ReadyForQuery and the session goes on
+	c.Extra["xtail"] = "Z," + xpC("END") + ",Z"
+	c.Extra["xend"] = "w"
+	if badRow >= 0 || insideRow {
+		c.Extra["xne"] = "1" // the handler forwards the reader's error: reported once
+	}
 	if badRow >= 0 {
 		// the rows before the lying one, then an error: never a crash, never a fabricated row
 		c.Extra["xbk"] = "=" + strings.Join(xb[:badRow], ";")
